@@ -105,6 +105,8 @@ def check_run(ctx, req, x, tag, stats, replay_reqs):
         stats["events"] += 1
         if e.get("fault"):
             stats["faults_hit"][e["fault"] + ":" + e["e"]] = stats["faults_hit"].get(e["fault"] + ":" + e["e"], 0) + 1
+        if e["e"] == "disk-full":
+            stats["faults_hit"]["disk-full:%d" % e["limit"]] = stats["faults_hit"].get("disk-full:%d" % e["limit"], 0) + 1
     if x["audit"] or x["audit_after"]:
         ctx.violation("the cache directory is inconsistent after a build with backend faults: " + "; ".join((x["audit"] + x["audit_after"])[:3]),
                       {"kind": "oracle", "oracle": "cache directory audit", "request": req, "audit": x["audit"], "audit_after": x["audit_after"],
@@ -119,7 +121,7 @@ def check_run(ctx, req, x, tag, stats, replay_reqs):
             ctx.violation("the build after a faulty build does not recover: target %s %s failed or restored different content (%s)" % (f["target"], f["mode"], f.get("msg", "")),
                           {"kind": "oracle", "oracle": "follow-up build recovers", "request": req, "followup": x["followup"], "events": x["events"]},
                           signature="followup-%s-fails:%s" % (f["mode"], tag))
-    ev = [e for e in x["events"] if e.get("ns", "cas") in ("cas", "target")]
+    ev = [e for e in x["events"] if e["e"] in ("exists", "get", "sb", "se") and e.get("ns", "cas") in ("cas", "target")]
     keys = sorted({("cas", k) for k in x["cas_keys"]} | {("target", k) for k in x["target_keys"]} |
                   {(e["ns"], e["k"]) for e in ev if "k" in e})
     replay_reqs.append(({"op": "store.replay", "events": ev, "query": [list(k) for k in keys]}, req, x, keys))
@@ -130,7 +132,7 @@ def run(ctx):
     scratch = ctx.scratch("c07")
     stats = {"runs": 0, "events": 0, "outcome": {}, "faults_hit": {}, "followup": {}, "ops_per_reference_run": [], "concurrent_runs": 0, "unlocked_runs": 0}
     replay_reqs = []
-    loads = fixed_workloads() + [workload(ctx.rng, k) for k in range(3 if quick else 25)]
+    loads = fixed_workloads() + [workload(ctx.rng, k) for k in range(2 if quick else 25)]
     distinct = set()
     all_reqs = []
     for wi, (ws, targets) in enumerate(loads):
@@ -147,12 +149,17 @@ def run(ctx):
         reqs = []
         # every single fault; the number of operations can grow after a fault (Exists fails -> Set is tried), so go a bit beyond
         # (large workloads: a stride through the operations in the quick tier, every operation in the thorough tier)
-        stride = 1 if (nops <= 60 or not quick) else max(1, nops // 40)
+        stride = 1 if (nops <= 60 or not quick) else max(1, nops // 22)
         for i in list(range(1, nops + 3, stride)) + ([nops, nops + 1] if stride > 1 else []):
             for kind in KINDS:
                 reqs.append((dict(base, plans=[{"plan": {str(i): kind}}]), "single:" + kind))
+        # the disk fills up at the i-th operation: from then on no file of the process can grow beyond L bytes (write(2) stores what
+        # fits and fails) — for writes through a temp file nothing becomes visible; an in-place write would leave a truncated entry
+        for i in range(1, nops + 1, 1 if (nops <= 30 or not quick) else max(1, nops // 10)):
+            for lim in ((0, 64) if quick else (0, 1, 64, 3000, 40000)):
+                reqs.append((dict(base, plans=[{"plan": {str(i): "fsize:%d" % lim}}]), "disk-full"))
         # repeated faults: everything from the i-th operation on fails; two and three scattered faults
-        for i in range(1, nops + 1, 1 if not quick else max(1, nops // 6)):
+        for i in range(1, nops + 1, 1 if not quick else max(1, nops // 4)):
             for kind in KINDS:
                 reqs.append((dict(base, plans=[{"every": kind, "from": i}]), "from:" + kind))
         for _ in range(10 if quick else 60):
@@ -177,8 +184,9 @@ def run(ctx):
                 del replay_reqs[n0:]        # without the per-key lock the logged order is not the order of effects: oracle only
             else:
                 check_run(ctx, r, x, tag, stats, replay_reqs)
-            if "events" in x and any(e.get("fault") for e in x["events"]):
+            if "events" in x and any(e.get("fault") or e["e"] == "disk-full" for e in x["events"]):
                 distinct.add(hashlib.sha1(S.jdump([wi, r["plans"], r["procs"]]).encode()).hexdigest())
+    remote_read_faults(ctx, scratch, stats)
     # --- trace inclusion -------------------------------------------------------------------------
     rejected = []
     state_diffs = []
@@ -198,7 +206,7 @@ def run(ctx):
     ctx.coverage["distinct_nontrivial"] = len(distinct)
     ctx.coverage["rule"] = ("workloads of 1-3 targets (directory and file outputs sharing contents and sub-directories); per workload: reference run, every "
                             "single fault (i-th backend operation x {err, err-after = stored but error returned, err-mid = reader fails half way}), "
-                            "everything-fails-from-i, 2-3 scattered faults, two concurrent processes with faults (per-key serialised wrapper: replayed), three "
+                            "disk full at the i-th operation (RLIMIT_FSIZE 0/64 bytes: writes store what fits and fail), everything-fails-from-i, 2-3 scattered faults, remote read-fault histories (mid-stream failure / early close, then a second read; local cache content audit), two concurrent processes with faults (per-key serialised wrapper: replayed), three "
                             "concurrent processes without the wrapper lock (audit only); after every run: Go-side audit, follow-up build, audit; non-trivial = "
                             "distinct (workload, fault plan) in which at least one injected fault was actually hit")
     ctx.coverage["distribution"] = stats
@@ -218,6 +226,36 @@ def run(ctx):
                        "events": rr["events"], "n_rejected": len(rejected), "n_state_diffs": len(state_diffs)}, found_input=False)
     if not quick:
         strace_kills(ctx, stats)
+
+
+def remote_read_faults(ctx, scratch, stats):
+    """a cache READ fails: remote reads failing in the middle of a blob / consumers that stop early, then a second read of the same key,
+    through the real RemoteWrapper (harness of C08); oracle: content audit of every local cache, successful restores are byte-identical"""
+    from . import c08
+    hs = [h for h in c08.fixed_histories() if h[3].startswith(("fixed-midstream", "fixed-retry-same-key", "fixed-flat-get-faults", "fixed-5"))]
+    reqs = [{"op": "store.remote", "scratch": scratch, "ws": ws, "targets": t, "history": h} for ws, t, h, _ in hs]
+    outs = S.impl(ctx, reqs) or []
+    n = 0
+    for (ws, t, h, fam), req, x in zip(hs, reqs, outs):
+        if "error" in x or "panic" in x:
+            ctx.violation("implementation driver failed on a read-fault history", {"kind": "impl-crash", "request": req, "impl": x}, signature="driver-error", found_input="panic" in x)
+            continue
+        n += 1
+        for st in x.get("steps") or []:
+            for mname, bad in (st.get("local_audit") or {}).items():
+                ctx.violation("after a failed cache read the local cache of machine %s exposes an entry whose content does not match its key: %s" % (mname, bad[0]),
+                              {"kind": "oracle", "oracle": "content audit of the local caches after read faults", "request": req, "step": st, "family": fam},
+                              signature="read-fault-leaves-corrupt-entry")
+            for r in st.get("results") or []:
+                if r.get("kind", st["do"]) == "restore" and r["outcome"] == "ok" and not r.get("equal"):
+                    ctx.violation("a restore after a failed cache read produced content that differs from what was cached",
+                                  {"kind": "oracle", "oracle": "restored == cached after read faults", "request": req, "step": st, "family": fam},
+                                  signature="read-fault-restores-corrupt-data")
+                if r["outcome"] == "hang" and S.confirm_hang(ctx, req, lambda o: any(rr.get("outcome") == "hang" for ss in o.get("steps") or [] for rr in ss.get("results") or [])):
+                    ctx.violation("a cache read after a failed cache read hangs", {"kind": "oracle", "oracle": "no hang", "request": req, "step": st, "family": fam},
+                                  signature="read-fault-hang")
+    stats["remote_read_fault_histories"] = n
+    ctx.coverage["evaluations"] = ctx.coverage.get("evaluations", 0)
 
 
 # --------------------------------------------------------------------------------------------------
@@ -324,7 +362,7 @@ def replay(ctx, rep):
     print("outcomes:", x.get("outcomes"))
     print("audit   :", x.get("audit"), x.get("audit_after"))
     print("followup:", x.get("followup"))
-    ev = [e for e in x.get("events", []) if e.get("ns", "cas") in ("cas", "target")]
+    ev = [e for e in x.get("events", []) if e["e"] in ("exists", "get", "sb", "se") and e.get("ns", "cas") in ("cas", "target")]
     y = S.model(ctx, [{"op": "store.replay", "events": ev, "query": []}])[0]
     print("model   :", y)
     bad = bool(x.get("audit") or x.get("audit_after")) or any(not f["ok"] or not f["equal"] for f in x.get("followup", [])) or not y.get("accepted")
